@@ -306,6 +306,8 @@ def engine_a_check(pid, tier, jobs, required_reach, assumptions, level_note, out
                 reach_w.append((h, lab, rr["witness"]))
         for v in r.get("violations") or []:
             vio.append(v)
+        for w in r.get("path_witnesses") or []:
+            reach_w.append((h, "path", w))
         # one digest per (group,input) across schedules
         for key, digests in (r.get("observed") or {}).items():
             if len(digests) > 1:
@@ -333,7 +335,11 @@ def engine_a_check(pid, tier, jobs, required_reach, assumptions, level_note, out
                     v["_skipped"] = [e["detail"] for e in ev if e["kind"] == "skip"][0]
                 continue
             if kind == "reach":
-                if lab == "return" or any(e["kind"] == "reach" and e["label"] == lab for e in ev):
+                if lab in ("return", "path") or any(e["kind"] == "reach" and e["label"] == lab for e in ev):
+                    bad = [e for e in ev if e["kind"] == "mismatch" or (e["kind"] == "assert-fail" and not match_known(known, pid, h, e.get("label"), e.get("class", "")))]
+                    if lab == "path" and bad:
+                        out.unconfirmed.append("stub/engine discrepancy: a path of %s that passes under the executor fails natively: %s" % (h, json.dumps(bad)[:300]))
+                        continue
                     if not any(e["kind"] == "mismatch" for e in ev):
                         validated += 1
                         continue
@@ -567,7 +573,9 @@ def c18(tier):
 
 
 def T(pkg, harness, params=None, **kw):
-    j = {"pkg": pkg, "harness": harness, "workers": NCPU, "params": params or {}}
+    """One exploration job. Every job has a wall-clock budget (a run that hits it is reported INCONCLUSIVE, never as success)."""
+    j = {"pkg": pkg, "harness": harness, "workers": NCPU, "params": params or {},
+         "deadline_s": 240 if os.environ.get("VERIF_TIER_CUR", "quick") == "quick" else 3600}
     j.update(kw)
     return j
 
@@ -579,10 +587,12 @@ def c16(tier):
             T("utils", "VerifC16_Column", {"N": 3}),
             T("transformer", "VerifC03_PrePass", {"N": W(tier, 6, 8)}),
             T("transformer", "VerifC07_Merge", {"SCEN": 1, "N": 2, "NR": 1}),
-            T("transformer", "VerifC07_Merge", {"SCEN": 0, "F": 2, "DECLS": 3, "RELS": 1, "CONDS": 1, "FAULTS": 0, "N": 2, "NR": 1})]
+            T("transformer", "VerifC07_Merge", {"SCEN": 0, "F": 2, "DECLS": 3, "RELS": 1, "CONDS": 1, "FAULTS": 0, "N": 2, "NR": 1}),
+            LJ("VerifListener_Doc", tier, MODULES=1, EXTEND=1, NODES=1, DEPTH=0, CONDS=2),
+            T("transformer", "VerifC16_SyntaxError")]
     out = engine_a_check("C16", tier, jobs,
                          {"VerifC16_TypeLine": ["type"], "VerifC16_ExtendedTypeLine": ["extend"], "VerifC16_ConditionLine": ["condition"],
-                          "VerifC16_RelationLine": ["relation"], "VerifC16_Column": ["column"], "VerifC03_PrePass": ["lemmas-checked"], "VerifC07_Merge": ["rejected"]},
+                          "VerifC16_RelationLine": ["relation"], "VerifC16_Column": ["column"], "VerifC03_PrePass": ["lemmas-checked"], "VerifC07_Merge": ["rejected"], "VerifListener_Doc": ["rejected"], "VerifC16_SyntaxError": ["recorded"]},
                          ["ANTLR token positions with respect to the cleaned text are outside (lexer/parser not encoded)",
                           "declaration lines follow the layout <indent><keyword> <name><tail>"], "",
                          bounds={"line lookups": "<= %d declarations, names of length 1..%d over {a,b,_,.,-}, 3 indents, 2-3 tails" % (d + 1, n),
@@ -634,8 +644,11 @@ def c13(tier):
 def c08(tier):
     jobs = [T("transformer", "VerifC08_PrinterDegenerate", {"NODES": W(tier, 4, 5), "DEPTH": 2}),
             T("transformer", "VerifC08_ConditionsDegenerate"),
-            T("transformer", "VerifC15_Manifest", {"K": 2})]
-    out = engine_a_check("C08", tier, jobs, {"VerifC08_PrinterDegenerate": ["accepted", "rejected"], "VerifC08_ConditionsDegenerate": ["accepted", "rejected"], "VerifC15_Manifest": ["accepted", "rejected"]},
+            T("transformer", "VerifC15_Manifest", {"K": 2}),
+            T("transformer", "VerifC16_SyntaxError"),
+            T("transformer", "VerifC07_Merge", {"SCEN": 0, "F": 2, "DECLS": 2, "RELS": 1, "CONDS": 1, "FAULTS": 1, "N": 1, "NR": 1})]
+    out = engine_a_check("C08", tier, jobs, {"VerifC08_PrinterDegenerate": ["accepted", "rejected"], "VerifC08_ConditionsDegenerate": ["accepted", "rejected"], "VerifC15_Manifest": ["accepted", "rejected"],
+                                             "VerifC16_SyntaxError": ["recorded"], "VerifC07_Merge": ["rejected"]},
                          ["arbitrary bytes through the ANTLR lexer/parser, protojson and yaml.v3 and the complexity claim are outside (not encoded)",
                           "decided: no Go run-time panic on any explored path of the hand-written code (panic monitor)"], "",
                          bounds={"printer": "degenerate rewrite trees <= %d nodes (nil children, unset oneofs, operators without operands), nil metadata/restrictions/type definitions, 7 degenerate condition shapes" % W(tier, 4, 5),
@@ -810,27 +823,48 @@ def grammar_facts(out, pid):
                                            "on": "serialized ATN in pkg/go/gen/openfga_parser.go / openfga_lexer.go (state elimination per rule)", "stats": stats}
 
 
+PARSER_STUB = ["lexer+parser are replaced by the grammar-conforming parse tree of the generated document, built from the real generated context classes (parser stub, DESIGN 5.3); the real walker, listener and error plumbing are executed; the contract 'the parser maps the text to this tree' is validated natively on the replayed witnesses (real ParseDSL on the text)",
+               "documents: one relation under test with the full expression shape up to the stated size, sibling relation, second type, conditions; names symbolic over {a,b,c,_}"]
+
+
+def LJ(harness, tier, **params):
+    base = {"N": 1, "NODES": 2, "DEPTH": 1, "SIBLINGS": 1, "CONDS": 1}
+    base.update(params)
+    return T("transformer", harness, base, warmup="VerifWarmupParser", sample_witnesses=W(tier, 30, 150))
+
+
+SHAPES = dict(SIBLINGS=0, CONDS=0, FIXLAYOUT=1)
+NAMES = dict(NODES=1, DEPTH=0, SIBLINGS=1, CONDS=1, FIXLAYOUT=1, PARAMS=2, N=2)
+
+
+def c01(tier):
+    jobs = [LJ("VerifC01_RoundTrip", tier, NODES=W(tier, 4, 5), DEPTH=W(tier, 1, 2), **SHAPES), LJ("VerifC01_RoundTrip", tier, **NAMES),
+            LJ("VerifC01_RoundTrip", tier, NODES=2, CONDS=W(tier, 1, 2)),
+            LJ("VerifC01_RoundTrip", tier, CHAIN=W(tier, 9, 16), **SHAPES)]
+    out = engine_a_check("C01", tier, jobs, {"VerifC01_RoundTrip": ["rendered", "stable"]},
+                         PARSER_STUB + ["condition expressions are a fixed token sequence without '#'", "the JSON string API differs from the direct hand-over only by protojson (not encoded)"], "",
+                         bounds={"shapes": "expression trees with <= %d operands in total, parenthesis depth <= %d, redundant parentheses <= 2 pairs, 4 restriction lists" % (W(tier, 4, 5), W(tier, 1, 2)),
+                                 "names": "type / relation / sibling / condition names symbolic, length <= 2"})
+    out.finish()
+
+
 def c03(tier):
-    jobs = [T("transformer", "VerifC03_PrePass", {"N": W(tier, 7, 9)})]
-    out = engine_a_check("C03", tier, jobs, {"VerifC03_PrePass": ["lemmas-checked"]},
-                         ["the ANTLR runtime's conformance to its ATN is outside (residual): that the runtime accepts every document the ATN admits and builds the tree the grammar dictates"], "",
+    jobs = [T("transformer", "VerifC03_PrePass", {"N": W(tier, 7, 9)}), LJ("VerifListener_Doc", tier, MODULES=1, NODES=W(tier, 3, 4), DEPTH=W(tier, 1, 2), SIBLINGS=0, CONDS=0),
+            LJ("VerifListener_Doc", tier, MODULES=1, NODES=1, DEPTH=0, EXPRS=1), LJ("VerifListener_Doc", tier, CHAIN=W(tier, 9, 16), **SHAPES)]
+    out = engine_a_check("C03", tier, jobs, {"VerifC03_PrePass": ["lemmas-checked"], "VerifListener_Doc": ["accepted"]},
+                         PARSER_STUB + ["the ANTLR runtime's conformance to its ATN is outside (residual): that the runtime accepts every document the ATN admits and builds the tree the grammar dictates"], "",
                          bounds={"pre-pass": "all byte strings of length <= %d" % W(tier, 7, 9), "grammar facts": "no bound (regular-language inclusions on the ATN)"})
     grammar_facts(out, "C03")
     out.finish()
 
 
 def c09(tier):
-    out = Outcome("C09", tier)
-    out.level = "proof"
+    jobs = [LJ("VerifListener_Doc", tier, MODULES=1, EXTEND=1, NODES=1, DEPTH=0, FIXLAYOUT=1, N=W(tier, 1, 2)), LJ("VerifListener_Doc", tier, CONDS=2, NODES=1, DEPTH=0, FIXLAYOUT=1, N=W(tier, 1, 2))]
+    out = engine_a_check("C09", tier, jobs, {"VerifListener_Doc": ["accepted", "rejected"]},
+                         PARSER_STUB + ["that the ANTLR runtime reports every deviation from the ATN as an error is outside (residual)"], "",
+                         bounds={"listener rules": "duplicate relation / condition / parameter, extend under a model header, repeated extend: which names collide is the solver's choice",
+                                 "grammar rules": "no bound (regular-language inclusions on the ATN)"})
     grammar_facts(out, "C09")
-    go = out.coverage.get("grammar_obligations", {"obligations": 0, "discharged": 0, "names": []})
-    out.coverage.update({"obligations": go["obligations"], "discharged": go["discharged"],
-                         "checker_cmd": "z3-new -in  (RegLan emptiness per inclusion on the ATN embedded in pkg/go/gen/openfga_parser.go)",
-                         "trusted_base": ["z3 5.1.0 sequence/regex solver", "ATN v4 deserialiser + state elimination (atnre/atn.py)", "specification languages in atnre/facts.py"],
-                         "samples": go["names"][:4], "exhaustive": go["obligations"] == go["discharged"],
-                         "bounds": "no bound on word length; grammar-level rules only"})
-    out.assumptions = ["that the ANTLR runtime reports every deviation from the ATN as an error is outside (residual)",
-                       "listener-raised rejections (duplicate relation/condition/parameter, extend in a model, repeated extend) are being added as engine-A harnesses"]
     out.finish()
 
 
@@ -866,7 +900,7 @@ def c12(tier):
     out.finish()
 
 
-REGISTRY = {"C09": c09, "C19": c19, "C07": c07, "C12": c12, "C15": c15, "C18": c18, "C16": c16, "C14": c14, "C03": c03, "C02": c02, "C13": c13, "C08": c08,
+REGISTRY = {"C01": c01, "C09": c09, "C19": c19, "C07": c07, "C12": c12, "C15": c15, "C18": c18, "C16": c16, "C14": c14, "C03": c03, "C02": c02, "C13": c13, "C08": c08,
             "C04": c04, "C05": c05, "C06": c06, "C10": c10, "C11": c11}
 
 
@@ -892,6 +926,7 @@ def main():
     tier = os.environ.get("VERIF_TIER", "quick")
     if "--tier" in args:
         tier = args[args.index("--tier") + 1]
+    os.environ["VERIF_TIER_CUR"] = tier
     if pid not in REGISTRY:
         log("unknown property", pid)
         sys.exit(2)
